@@ -1,3 +1,555 @@
-use crate::ctx::Ctx;
-pub fn run_c02(_ctx: &mut Ctx) { unimplemented!() }
-pub fn run_c03(_ctx: &mut Ctx) { unimplemented!() }
+//! C02 (checked access reaches exactly the addressed cell or panics) and
+//! C03 (a view is exactly the requested window of its parent).
+use crate::ctx::*;
+use crate::model::{shapes, windows};
+use crate::recv::Win;
+use toodee::*;
+
+fn nsel(ctx: &Ctx, miri_q: usize, miri_t: usize, vg: usize, quick: usize, thorough: usize) -> usize {
+    match (ctx.scale, ctx.tier) {
+        (Scale::Miri, Tier::Quick) => miri_q,
+        (Scale::Miri, Tier::Thorough) => miri_t,
+        (Scale::Vg, _) => vg,
+        (Scale::Native, Tier::Quick) => quick,
+        (Scale::Native, Tier::Thorough) => thorough,
+    }
+}
+
+/// Absolute placement of a receiver inside the root buffer.
+#[derive(Clone, Copy, Debug)]
+pub struct Pos {
+    pub base: usize,
+    pub stride: usize,
+    pub start: (usize, usize),
+    pub size: (usize, usize),
+}
+impl Pos {
+    fn cell(&self, c: usize, r: usize) -> usize {
+        self.base + ((self.start.1 + r) * self.stride + self.start.0 + c) * 4
+    }
+    fn idx(&self, c: usize, r: usize) -> usize {
+        (self.start.1 + r) * self.stride + self.start.0 + c
+    }
+    fn sub(&self, s: (usize, usize), e: (usize, usize)) -> Option<Pos> {
+        if s.0 <= e.0 && s.1 <= e.1 && e.0 <= self.size.0 && e.1 <= self.size.1 {
+            let (w, h) = (e.0 - s.0, e.1 - s.1);
+            if w == 0 || h == 0 {
+                Some(Pos { base: self.base, stride: self.stride, start: (self.start.0 + s.0, self.start.1 + s.1), size: (0, 0) })
+            } else {
+                Some(Pos { base: self.base, stride: self.stride, start: (self.start.0 + s.0, self.start.1 + s.1), size: (w, h) })
+            }
+        } else {
+            None
+        }
+    }
+}
+
+fn addr(r: &u32) -> usize {
+    r as *const u32 as usize
+}
+
+// ================================================================================================
+// C02
+
+fn coord_values(dim: usize, stride: usize, len: usize, for_row: bool) -> Vec<usize> {
+    let mut v: Vec<usize> = (0..=dim + 2).collect();
+    v.extend([usize::MAX, usize::MAX - 1, usize::MAX / 2, usize::MAX / 2 + 1, 1usize << 32, 1usize << 63]);
+    if for_row && stride > 0 {
+        // rows r with r*stride wrapping to an in-range offset p
+        for p in 0..len.min(8) {
+            let t = (1u128 << 64) + p as u128;
+            if t % stride as u128 == 0 {
+                let r = (t / stride as u128) as u64 as usize;
+                v.push(r);
+            }
+        }
+        for j in 1..4usize {
+            v.push((usize::MAX / stride).wrapping_mul(j).wrapping_add(1));
+        }
+    } else if stride > 0 {
+        // columns c with r*stride + c wrapping to an in-range offset, for r = 1
+        for p in 0..len.min(4) {
+            v.push(p.wrapping_sub(stride));
+        }
+    }
+    v.sort_unstable();
+    v.dedup();
+    v
+}
+
+/// Check all accessor forms of a shared receiver at (c, r).
+fn c02_shared<X: TooDeeOps<u32>>(ctx: &mut Ctx, kind: &str, x: &X, pos: &Pos, c: usize, r: usize) {
+    let (wc, wr) = pos.size;
+    let inr = c < wc && r < wr;
+    let want = if inr { Some(pos.cell(c, r)) } else { None };
+    let mut forms: Vec<(&str, Option<usize>)> = vec![];
+    forms.push(("x[(c,r)]", catches(|| addr(&x[(c, r)])).ok()));
+    forms.push(("x[r][c]", catches(|| addr(&x[r][c])).ok()));
+    forms.push(("x.col(c)[r]", catches(|| addr(&x.col(c)[r])).ok()));
+    if inr {
+        forms.push(("x.col(c).nth(r)", catches(|| x.col(c).nth(r).map(addr)).ok().flatten()));
+        forms.push(("x.rows().nth(r)[c]", catches(|| x.rows().nth(r).map(|row| addr(&row[c]))).ok().flatten()));
+        forms.push(("get_unchecked", catches(|| unsafe { addr(x.get_unchecked((c, r))) }).ok()));
+        forms.push(("get_unchecked_row", catches(|| unsafe { addr(&x.get_unchecked_row(r)[c]) }).ok()));
+    }
+    // row slice form: x[r] must be exactly the row or panic
+    let rowres = catches(|| {
+        let s = &x[r];
+        (s.as_ptr() as usize, s.len())
+    })
+    .ok();
+    let want_row = if r < wr { Some((pos.cell(0, r), wc)) } else { None };
+    if rowres != want_row {
+        ctx.violation(kind, "access:row-slice", format!("x[{}] -> {:x?} expected {:x?} (size {:?})", r, rowres, want_row, pos.size));
+    }
+    // col(c) itself must panic when c is out of range
+    let colres = catches(|| x.col(c).len()).ok();
+    let want_col = if c < wc { Some(wr) } else { None };
+    if colres != want_col {
+        ctx.violation(kind, "access:col", format!("col({}).len() -> {:?} expected {:?} (size {:?})", c, colres, want_col, pos.size));
+    }
+    for (f, got) in forms {
+        ctx.count("accessor_calls", 1);
+        if got != want {
+            let sym = if want.is_none() { "access:out-of-range-accepted" } else { "access:wrong-cell" };
+            ctx.violation(kind, sym, format!("{} with (c,r)=({},{}) on size {:?} stride {}: got {:x?} expected {:x?}", f, c, r, pos.size, pos.stride, got, want));
+        }
+    }
+}
+
+fn c02_mut<X: TooDeeOpsMut<u32>>(ctx: &mut Ctx, kind: &str, x: &mut X, pos: &Pos, c: usize, r: usize) {
+    let (wc, wr) = pos.size;
+    let inr = c < wc && r < wr;
+    let want = if inr { Some(pos.cell(c, r)) } else { None };
+    let mut forms: Vec<(&str, Option<usize>)> = vec![];
+    forms.push(("x[(c,r)] (mut)", catches(|| addr(&mut x[(c, r)])).ok()));
+    forms.push(("x[r][c] (mut)", catches(|| addr(&mut x[r][c])).ok()));
+    forms.push(("x.col_mut(c)[r]", catches(|| addr(&x.col_mut(c)[r])).ok()));
+    forms.push(("x.col_mut(c)[r] (mut)", catches(|| addr(&mut x.col_mut(c)[r])).ok()));
+    if inr {
+        forms.push(("x.col_mut(c).nth(r)", catches(|| x.col_mut(c).nth(r).map(|m| addr(m))).ok().flatten()));
+        forms.push(("x.rows_mut().nth(r)[c]", catches(|| x.rows_mut().nth(r).map(|row| addr(&row[c]))).ok().flatten()));
+        forms.push(("get_unchecked_mut", catches(|| unsafe { addr(x.get_unchecked_mut((c, r))) }).ok()));
+        forms.push(("get_unchecked_row_mut", catches(|| unsafe { addr(&x.get_unchecked_row_mut(r)[c]) }).ok()));
+    }
+    let colres = catches(|| x.col_mut(c).len()).ok();
+    let want_col = if c < wc { Some(wr) } else { None };
+    if colres != want_col {
+        ctx.violation(kind, "access:col_mut", format!("col_mut({}).len() -> {:?} expected {:?} (size {:?})", c, colres, want_col, pos.size));
+    }
+    for (f, got) in forms {
+        ctx.count("accessor_calls", 1);
+        if got != want {
+            let sym = if want.is_none() { "access:out-of-range-accepted" } else { "access:wrong-cell" };
+            ctx.violation(kind, sym, format!("{} with (c,r)=({},{}) on size {:?} stride {}: got {:x?} expected {:x?}", f, c, r, pos.size, pos.stride, got, want));
+        }
+    }
+}
+
+fn c02_receiver(ctx: &mut Ctx, pshape: (usize, usize), win: Win, rk: u8) {
+    let (pc, pr) = pshape;
+    let extra = if rk >= 3 { 3 } else { 0 };
+    let mut buf: Vec<u32> = (0..(pc * pr + extra) as u32).collect();
+    let orig = buf.clone();
+    let mut parent = if rk < 3 { TooDee::from_vec(pc, pr, std::mem::take(&mut buf)) } else { TooDee::default() };
+    let base = if rk < 3 { parent.data().as_ptr() as usize } else { buf.as_ptr() as usize };
+    let root = Pos { base, stride: pc, start: (0, 0), size: if pc == 0 { (0, 0) } else { (pc, pr) } };
+    let pos = root.sub(win.0, win.1).expect("harness: valid window");
+    let (wc, wr) = pos.size;
+    let len_in = if wr == 0 { 0 } else { (wr - 1) * pc + wc };
+    let cs = coord_values(wc, pc, len_in, false);
+    let rs = coord_values(wr, pc, len_in, true);
+    let kinds = ["TooDee", "TooDeeView", "TooDeeViewMut", "TooDeeView::new", "TooDeeViewMut::new"];
+    let kind = kinds[rk as usize];
+    for &c in &cs {
+        for &r in &rs {
+            match rk {
+                0 => {
+                    c02_shared(ctx, kind, &parent, &pos, c, r);
+                    c02_mut(ctx, kind, &mut parent, &pos, c, r);
+                    // owned: the cell is data()[r*num_cols + c]
+                    if c < wc && r < wr && addr(&parent.data()[r * wc + c]) != pos.cell(c, r) {
+                        ctx.violation(kind, "access:data-layout", format!("data()[{}] is not cell ({},{})", r * wc + c, c, r));
+                    }
+                }
+                1 => {
+                    let v = parent.view(win.0, win.1);
+                    c02_shared(ctx, kind, &v, &pos, c, r);
+                }
+                2 => {
+                    let mut v = parent.view_mut(win.0, win.1);
+                    c02_shared(ctx, kind, &v, &pos, c, r);
+                    c02_mut(ctx, kind, &mut v, &pos, c, r);
+                }
+                3 => {
+                    let v = TooDeeView::new(pc, pr, &buf);
+                    c02_shared(ctx, kind, &v, &pos, c, r);
+                }
+                _ => {
+                    let mut v = TooDeeViewMut::new(pc, pr, &mut buf);
+                    c02_shared(ctx, kind, &v, &pos, c, r);
+                    c02_mut(ctx, kind, &mut v, &pos, c, r);
+                }
+            }
+            let class = |v: usize, d: usize| if v < d { 0 } else if v <= d + 2 { 1 } else { 2 };
+            ctx.seen("coord_classes", (rk, class(c, wc), class(r, wr)));
+            ctx.count("calls", 1);
+        }
+    }
+    // nothing was written
+    let now: &[u32] = if rk < 3 { parent.data() } else { &buf };
+    if now != &orig[..] {
+        ctx.violation(kind, "access:cells-written", format!("buffer changed: {:?} -> {:?}", orig, now));
+    }
+    if wc > 0 {
+        ctx.nontrivial(("C02", rk, pshape, win));
+    }
+}
+
+pub fn run_c02(ctx: &mut Ctx) {
+    let n_owned = nsel(ctx, 3, 3, 3, 6, 10);
+    let n_par = nsel(ctx, 2, 3, 3, 4, 6);
+    for shape in shapes(n_owned) {
+        for rk in [0u8, 3, 4] {
+            if ctx.case(|| format!("C02 {} shape={}x{}", ["TooDee", "", "", "TooDeeView::new", "TooDeeViewMut::new"][rk as usize], shape.0, shape.1)) {
+                c02_receiver(ctx, shape, ((0, 0), shape), rk);
+            }
+            if ctx.done() {
+                return;
+            }
+        }
+    }
+    for shape in shapes(n_par) {
+        for win in windows(shape.0, shape.1) {
+            for rk in [1u8, 2] {
+                if ctx.case(|| format!("C02 {} parent={}x{} win={:?}", ["", "TooDeeView", "TooDeeViewMut"][rk as usize], shape.0, shape.1, win)) {
+                    c02_receiver(ctx, shape, win, rk);
+                }
+                if ctx.done() {
+                    return;
+                }
+            }
+        }
+    }
+}
+
+// ================================================================================================
+// C03
+
+/// Check that `v` is exactly the window at `pos`: size, address of every cell through three routes.
+fn check_view<V: TooDeeOps<u32>>(ctx: &mut Ctx, kind: &str, v: &V, pos: &Pos, what: &dyn Fn() -> String) -> bool {
+    if v.size() != pos.size || v.num_cols() != pos.size.0 || v.num_rows() != pos.size.1 {
+        ctx.violation(kind, "view:size", format!("{}: size {:?} expected {:?}", what(), v.size(), pos.size));
+        return false;
+    }
+    if v.is_empty() != (pos.size.0 == 0) {
+        ctx.violation(kind, "view:is_empty", what());
+        return false;
+    }
+    let (wc, wr) = pos.size;
+    let mut nrows = 0;
+    for (r, row) in v.rows().enumerate() {
+        nrows += 1;
+        if r >= wr || (row.as_ptr() as usize, row.len()) != (pos.cell(0, r), wc) {
+            ctx.violation(kind, "view:rows", format!("{}: rows()[{}] = ({:#x},{}) expected ({:#x},{})", what(), r, row.as_ptr() as usize, row.len(), if r < wr { pos.cell(0, r) } else { 0 }, wc));
+            return false;
+        }
+    }
+    if nrows != wr {
+        ctx.violation(kind, "view:rows", format!("{}: rows() yielded {} rows expected {}", what(), nrows, wr));
+        return false;
+    }
+    for r in 0..wr {
+        for c in 0..wc {
+            let a = addr(&v[(c, r)]);
+            if a != pos.cell(c, r) {
+                ctx.violation(kind, "view:cell-address", format!("{}: cell ({},{}) at {:#x} expected {:#x}", what(), c, r, a, pos.cell(c, r)));
+                return false;
+            }
+        }
+    }
+    for c in 0..wc {
+        let col: Vec<usize> = v.col(c).map(addr).collect();
+        let want: Vec<usize> = (0..wr).map(|r| pos.cell(c, r)).collect();
+        if col != want {
+            ctx.violation(kind, "view:col", format!("{}: col({}) addresses {:x?} expected {:x?}", what(), c, col, want));
+            return false;
+        }
+    }
+    if v.cells().len() != wc * wr {
+        ctx.violation(kind, "view:cells-len", what());
+        return false;
+    }
+    ctx.count("addresses_compared", (wc * wr * 3) as u64);
+    true
+}
+
+struct Step {
+    s: (usize, usize),
+    e: (usize, usize),
+    /// true = view_mut, false = view
+    m: bool,
+}
+
+struct Leaf<'a> {
+    /// expected writes into the root buffer (index, value)
+    writes: &'a mut Vec<(usize, u32)>,
+    /// single-cell write mode: Some(k) writes only the k-th cell of the leaf
+    single: Option<usize>,
+    verdict: &'a mut Option<bool>,
+    label: &'a str,
+}
+
+fn judge_final(ctx: &mut Ctx, kind: &str, valid: bool, panicked: Option<&String>, what: &dyn Fn() -> String) -> bool {
+    match (valid, panicked) {
+        (true, None) => true,
+        (false, Some(_)) => {
+            ctx.count("rejected", 1);
+            false
+        }
+        (true, Some(m)) => {
+            ctx.violation(kind, "valid-call-panicked", format!("{}: {}", what(), m));
+            false
+        }
+        (false, None) => {
+            ctx.violation(kind, "invalid-call-accepted", what());
+            false
+        }
+    }
+}
+
+fn descend_v<X: TooDeeOps<u32>>(ctx: &mut Ctx, x: &X, pos: Pos, path: &[Step], leaf: &mut Leaf<'_>) {
+    let st = &path[0];
+    let np = pos.sub(st.s, st.e);
+    let what = || format!("{} view({:?},{:?}) on receiver of size {:?} at {:?}", leaf.label, st.s, st.e, pos.size, pos.start);
+    if path.len() == 1 {
+        let r = catches(|| x.view(st.s, st.e));
+        ctx.count("calls", 1);
+        match r {
+            Ok(v) => {
+                if judge_final(ctx, "view", np.is_some(), None, &what) {
+                    let ok = check_view(ctx, "view", &v, &np.unwrap(), &what);
+                    *leaf.verdict = Some(ok);
+                }
+            }
+            Err(m) => {
+                judge_final(ctx, "view", np.is_some(), Some(&m), &what);
+            }
+        }
+    } else {
+        let v = x.view(st.s, st.e);
+        descend_v(ctx, &v, np.expect("harness: prefix must be valid"), &path[1..], leaf);
+    }
+}
+
+fn descend_m<X: TooDeeOpsMut<u32>>(ctx: &mut Ctx, x: &mut X, pos: Pos, path: &[Step], leaf: &mut Leaf<'_>) {
+    let st = &path[0];
+    let np = pos.sub(st.s, st.e);
+    if !st.m {
+        return descend_v(ctx, x, pos, path, leaf);
+    }
+    let what = || format!("{} view_mut({:?},{:?}) on receiver of size {:?} at {:?}", leaf.label, st.s, st.e, pos.size, pos.start);
+    if path.len() == 1 {
+        let r = catches(|| x.view_mut(st.s, st.e));
+        ctx.count("calls", 1);
+        match r {
+            Ok(mut v) => {
+                if judge_final(ctx, "view_mut", np.is_some(), None, &what) {
+                    let np = np.unwrap();
+                    let ok = check_view(ctx, "view_mut", &v, &np, &what);
+                    *leaf.verdict = Some(ok);
+                    if ok {
+                        // write through
+                        let (wc, wr) = np.size;
+                        let mut k = 0usize;
+                        for r in 0..wr {
+                            for c in 0..wc {
+                                if leaf.single.map_or(true, |s| s == k) {
+                                    let val = 900_000 + (k as u32);
+                                    if (c + r) % 2 == 0 {
+                                        v[(c, r)] = val;
+                                    } else {
+                                        v[r][c] = val;
+                                    }
+                                    leaf.writes.push((np.idx(c, r), val));
+                                }
+                                k += 1;
+                            }
+                        }
+                    }
+                }
+            }
+            Err(m) => {
+                judge_final(ctx, "view_mut", np.is_some(), Some(&m), &what);
+            }
+        }
+    } else {
+        let mut v = x.view_mut(st.s, st.e);
+        descend_m(ctx, &mut v, np.expect("harness: prefix must be valid"), &path[1..], leaf);
+    }
+}
+
+/// Run one chain from a root and verify the root buffer afterwards.
+fn run_chain(ctx: &mut Ctx, pshape: (usize, usize), root_kind: u8, path: &[Step], single: Option<usize>) -> Option<bool> {
+    let (pc, pr) = pshape;
+    let extra = if root_kind > 0 { 2 } else { 0 };
+    let mut buf: Vec<u32> = (0..(pc * pr + extra) as u32).collect();
+    let orig = buf.clone();
+    let mut writes: Vec<(usize, u32)> = vec![];
+    let mut verdict = None;
+    let labels = ["TooDee", "TooDeeView::new", "TooDeeViewMut::new"];
+    let now: Vec<u32>;
+    {
+        let mut leaf = Leaf { writes: &mut writes, single, verdict: &mut verdict, label: labels[root_kind as usize] };
+        match root_kind {
+            0 => {
+                let mut parent = TooDee::from_vec(pc, pr, std::mem::take(&mut buf));
+                let root = Pos { base: parent.data().as_ptr() as usize, stride: pc, start: (0, 0), size: if pc == 0 { (0, 0) } else { (pc, pr) } };
+                descend_m(ctx, &mut parent, root, path, &mut leaf);
+                now = parent.data().to_vec();
+            }
+            1 => {
+                let root = Pos { base: buf.as_ptr() as usize, stride: pc, start: (0, 0), size: if pc == 0 { (0, 0) } else { (pc, pr) } };
+                let v = TooDeeView::new(pc, pr, &buf);
+                descend_v(ctx, &v, root, path, &mut leaf);
+                now = buf.clone();
+            }
+            _ => {
+                let root = Pos { base: buf.as_ptr() as usize, stride: pc, start: (0, 0), size: if pc == 0 { (0, 0) } else { (pc, pr) } };
+                {
+                    let mut v = TooDeeViewMut::new(pc, pr, &mut buf);
+                    descend_m(ctx, &mut v, root, path, &mut leaf);
+                }
+                now = buf.clone();
+            }
+        }
+    }
+    let mut want = orig.clone();
+    for (i, v) in &writes {
+        want[*i] = *v;
+    }
+    if now != want {
+        ctx.violation("view_mut", "view:write-through", format!("root {}x{} path {:?}: buffer {:?} expected {:?}", pc, pr, path.iter().map(|s| (s.s, s.e, s.m)).collect::<Vec<_>>(), now, want));
+        return Some(false);
+    }
+    ctx.count("cells_written_through", writes.len() as u64);
+    verdict
+}
+
+fn all_pairs(dim_c: usize, dim_r: usize) -> Vec<Win> {
+    let mut v = vec![];
+    for s0 in 0..=dim_c + 1 {
+        for s1 in 0..=dim_r + 1 {
+            for e0 in 0..=dim_c + 1 {
+                for e1 in 0..=dim_r + 1 {
+                    v.push(((s0, s1), (e0, e1)));
+                }
+            }
+        }
+    }
+    v
+}
+
+pub fn run_c03(ctx: &mut Ctx) {
+    let n1 = nsel(ctx, 2, 3, 3, 5, 7);
+    let n2 = nsel(ctx, 2, 2, 2, 3, 4);
+    let n3 = nsel(ctx, 0, 2, 2, 3, 3);
+    // depth 1: every (start,end) pair, valid and invalid
+    for shape in shapes(n1) {
+        for (root_kind, m) in [(0u8, false), (0, true), (1, false), (2, false), (2, true)] {
+            if !ctx.case(|| format!("C03 depth1 root={} mut={} shape={}x{}", root_kind, m, shape.0, shape.1)) {
+                if ctx.done() {
+                    return;
+                }
+                continue;
+            }
+            let (dc, dr) = if shape.0 == 0 { (0, 0) } else { shape };
+            for (s, e) in all_pairs(dc, dr) {
+                let path = [Step { s, e, m }];
+                let v = run_chain(ctx, shape, root_kind, &path, None);
+                if v == Some(true) {
+                    ctx.nontrivial(("C03", 1, root_kind, m, shape, s, e));
+                    // single-cell writes for small windows
+                    if m {
+                        let cells = (e.0 - s.0) * (e.1 - s.1);
+                        if cells > 1 && cells <= 6 {
+                            for k in 0..cells {
+                                run_chain(ctx, shape, root_kind, &path, Some(k));
+                            }
+                        }
+                    }
+                } else if v.is_none() {
+                    ctx.nontrivial(("C03rej", 1, root_kind, m, shape, s, e));
+                }
+            }
+            // wrap-provoking / huge coordinates must be rejected
+            for big in [usize::MAX, usize::MAX / 2 + 1, 1usize << 32] {
+                for (s, e) in [((0, 0), (big, 1)), ((0, 0), (1, big)), ((big, 0), (big, 1)), ((0, big), (1, big)), ((big, big), (big, big))] {
+                    run_chain(ctx, shape, root_kind, &[Step { s, e, m }], None);
+                }
+            }
+        }
+    }
+    // depth 2: every valid non-empty outer window x every inner pair
+    let chains2: [(u8, [bool; 2]); 5] = [(0, [false, false]), (0, [true, false]), (0, [true, true]), (1, [false, false]), (2, [true, true])];
+    for shape in shapes(n2) {
+        if shape.0 == 0 {
+            continue;
+        }
+        for (root_kind, ms) in chains2 {
+            for (os, oe) in windows(shape.0, shape.1) {
+                let (ow, oh) = (oe.0 - os.0, oe.1 - os.1);
+                let (ow, oh) = if ow == 0 || oh == 0 { (0, 0) } else { (ow, oh) };
+                if !ctx.case(|| format!("C03 depth2 root={} kinds={:?} shape={}x{} outer={:?}", root_kind, ms, shape.0, shape.1, (os, oe))) {
+                    if ctx.done() {
+                        return;
+                    }
+                    continue;
+                }
+                for (s, e) in all_pairs(ow, oh) {
+                    let path = [Step { s: os, e: oe, m: ms[0] }, Step { s, e, m: ms[1] }];
+                    let v = run_chain(ctx, shape, root_kind, &path, None);
+                    if v == Some(true) {
+                        ctx.nontrivial(("C03", 2, root_kind, ms, shape, os, oe, s, e));
+                    } else if v.is_none() {
+                        ctx.nontrivial(("C03rej", 2, root_kind, ms, shape, os, oe, s, e));
+                    }
+                }
+            }
+        }
+    }
+    // depth 3: all valid two-step prefixes on small parents x every innermost pair
+    let chains3: [(u8, [bool; 3]); 4] = [(0, [false, false, false]), (0, [true, false, false]), (0, [true, true, false]), (0, [true, true, true])];
+    if n3 > 0 {
+        for shape in shapes(n3) {
+            if shape.0 == 0 {
+                continue;
+            }
+            for (root_kind, ms) in chains3 {
+                for (os, oe) in windows(shape.0, shape.1) {
+                    let (ow, oh) = (oe.0 - os.0, oe.1 - os.1);
+                    if ow == 0 || oh == 0 {
+                        continue;
+                    }
+                    if !ctx.case(|| format!("C03 depth3 root={} kinds={:?} shape={}x{} outer={:?}", root_kind, ms, shape.0, shape.1, (os, oe))) {
+                        if ctx.done() {
+                            return;
+                        }
+                        continue;
+                    }
+                    for (ms_, me) in windows(ow, oh) {
+                        let (mw, mh) = (me.0 - ms_.0, me.1 - ms_.1);
+                        let (mw, mh) = if mw == 0 || mh == 0 { (0, 0) } else { (mw, mh) };
+                        for (s, e) in all_pairs(mw, mh) {
+                            let path = [Step { s: os, e: oe, m: ms[0] }, Step { s: ms_, e: me, m: ms[1] }, Step { s, e, m: ms[2] }];
+                            let v = run_chain(ctx, shape, root_kind, &path, None);
+                            if v == Some(true) {
+                                ctx.nontrivial(("C03", 3, ms, shape, os, oe, ms_, me, s, e));
+                            }
+                        }
+                    }
+                }
+            }
+        }
+    }
+}
